@@ -92,6 +92,13 @@ Theorem C08_escape_ok_partial : escape_ok_on_family = true.
 Proof. exact escape_ok_family. Qed.
 Print Assumptions C08_escape_ok_partial.
 
+(* general part (any table, any admissible identifier): the prefix is stripped exactly when it was
+   added, so the identifier round trip reduces to the replacement round trip *)
+Theorem C08_escape_reduce : forall T kws P w, wf_repl T P = true -> id_okb T P w = true ->
+  unescape_name T P (length P) (escape_word T kws P w) = undo_repl T (apply_repl T w).
+Proof. exact escape_reduce. Qed.
+Print Assumptions C08_escape_reduce.
+
 Example C08_escape_family_nontrivial :
   (1000 <=? Z.of_nat (length (filter (id_okb repl_table esc_prefix_kw) family))) = true.
 Proof. exact family_nontrivial. Qed.
